@@ -12,6 +12,8 @@ verus! {
 //@include common/transform.vrs
 //@include common/pyramid_abs.vrs
 //@include common/pbf_blob.vrs
+//@include common/compression.vrs
+//@include common/source_abs.vrs
 
 pub assume_specification [i32::pow] (b: i32, e: u32) -> (r: i32)
 	requires b == 2, e < 31      // 2^31 does not fit an i32: overflow panic (debug) / wrap (release)
@@ -48,6 +50,13 @@ pub open spec fn is_agg(a: Agg, s: spec_fn(int) -> bool, r: Result<i32, VErr>) -
 }
 #[verifier::external_body]
 pub struct MBTilesReader { }
+impl TileStream {
+	// trusted (tile_stream.rs): from_vec streams exactly the elements of the vector
+	#[verifier::external_body]
+	pub fn from_pairs(vec: Vec<(TileCoord3, Blob)>) -> (r: TileStream)
+		ensures forall|c: TileCoord3, b: Seq<u8>| r.items().contains((c, b)) <==> exists|i: int| 0 <= i < vec@.len() && (#[trigger] vec@[i]).0 == c && vec@[i].1@ == b
+	{ unimplemented!() }
+}
 // a prepared single-tile query (rusqlite Statement): the bytes of the record (column, row, zoom), Err if there is none (QueryReturnedNoRows)
 #[verifier::external_body] pub struct TileQuery { }
 impl TileQuery {
@@ -99,6 +108,30 @@ impl MBTilesReader {
 		ensures r is Ok ==> (match r.unwrap() { Some(b) => coord.valid() && self.tile_data(coord.z as int, coord.x as int, pow2(coord.z as nat) - 1 - coord.y) == Some(b@), None => true }),
 //@start
 		proof { lemma_pow2_bound(coord.z as nat); }
+//@end
+	// ---- box stream: SELECT tile_column, tile_row, zoom_level, tile_data FROM tiles WHERE tile_column >= ? AND tile_column <= ? AND
+	// tile_row >= ? AND tile_row <= ? AND zoom_level = ?, every record mapped to (column, max_index - row, zoom) (trusted: the SQL text
+	// and the row-mapping closure, both part of the replaced expression)
+	#[verifier::external_body]
+	pub fn q_range(&self, c0: u32, c1: u32, r0: u32, r1: u32, z: u32, max_index: u32) -> (v: Vec<(TileCoord3, Blob)>)
+		requires r1 <= max_index
+		ensures forall|c: TileCoord3, b: Seq<u8>| (exists|i: int| 0 <= i < v@.len() && (#[trigger] v@[i]).0 == c && v@[i].1@ == b)
+			<==> (c.z == z && c0 <= c.x <= c1 && c.y <= max_index && r0 <= max_index - c.y <= r1 && self.tile_data(z as int, c.x as int, max_index - c.y) == Some(b)),
+	{ unimplemented!() }
+//@extract fn file="versatiles_container/src/container/mbtiles/reader.rs" scope="impl TilesReaderTrait for MBTilesReader" name="get_bbox_tile_stream"
+//@prerewrite "let conn = self.pool.get().unwrap(); let mut stmt = conn .prepare( \"SELECT tile_column, tile_row, zoom_level, tile_data FROM tiles WHERE tile_column >= ? AND tile_column <= ? AND tile_row >= ? AND tile_row <= ? AND zoom_level = ?\", ) .unwrap();" => ""
+//@prerewrite "stmt .query_map( [ bbox.x_min, bbox.x_max, max_index - bbox.y_max, max_index - bbox.y_min, bbox.level as u32, ], move |row| { let coord = TileCoord3::new( row.get::<_, u32>(0)?, max_index - row.get::<_, u32>(1)?, row.get::<_, u8>(2)?, ) .unwrap(); let blob = Blob::from(row.get::<_, Vec<u8>>(3)?); Ok((coord, blob)) }, ) .unwrap() .filter_map(|r| r.ok()) .collect()" => "self.q_range(bbox.x_min, bbox.x_max, max_index - bbox.y_max, max_index - bbox.y_min, bbox.level as u32, max_index)" optional
+// (argument variants a slip could produce: translated too, so that they fail the contract instead of losing the anchor)
+//@prerewrite "stmt .query_map( [ bbox.x_min, bbox.x_max, max_index - bbox.y_min, max_index - bbox.y_max, bbox.level as u32, ], move |row| { let coord = TileCoord3::new( row.get::<_, u32>(0)?, max_index - row.get::<_, u32>(1)?, row.get::<_, u8>(2)?, ) .unwrap(); let blob = Blob::from(row.get::<_, Vec<u8>>(3)?); Ok((coord, blob)) }, ) .unwrap() .filter_map(|r| r.ok()) .collect()" => "self.q_range(bbox.x_min, bbox.x_max, max_index - bbox.y_min, max_index - bbox.y_max, bbox.level as u32, max_index)" optional
+//@prerewrite "stmt .query_map( [ bbox.x_min, bbox.x_max, bbox.y_min, bbox.y_max, bbox.level as u32, ], move |row| { let coord = TileCoord3::new( row.get::<_, u32>(0)?, max_index - row.get::<_, u32>(1)?, row.get::<_, u8>(2)?, ) .unwrap(); let blob = Blob::from(row.get::<_, Vec<u8>>(3)?); Ok((coord, blob)) }, ) .unwrap() .filter_map(|r| r.ok()) .collect()" => "self.q_range(bbox.x_min, bbox.x_max, bbox.y_min, bbox.y_max, bbox.level as u32, max_index)" optional
+//@rewrite "TileStream::from_vec(vec)" => "TileStream::from_pairs(vec)" R6
+//@ret r
+//@spec
+		// C02 for the MBTiles reader: the stream of a box delivers exactly the lookups inside the box (compare get_tile_data above)
+		requires bbox.wf()
+		ensures forall|c: TileCoord3, b: Seq<u8>| r.items().contains((c, b)) <==> (bbox.has3(c) && self.tile_data(c.z as int, c.x as int, pow2(c.z as nat) - 1 - c.y) == Some(b)),
+//@start
+		proof { bbox.lemma_empty(); lemma_pow2_bound(bbox.level as nat); }
 //@end
 //@extract fn file="versatiles_container/src/container/mbtiles/reader.rs" scope="impl MBTilesReader" name="get_bbox_pyramid"
 //@prerewrite "self.simple_query(\"MIN(zoom_level)\", \"\")" => "self.q_zoom(Agg::Min)" optional
